@@ -1,5 +1,6 @@
 //! one module per family; a family serves one or more properties
 use crate::util::Ctx;
+pub mod fs;
 pub mod c01;
 pub mod c02;
 pub mod c03;
